@@ -13,7 +13,7 @@ ASSUMPTIONS = ["reference vf/ref/ec.py, self-tested against published RFC 6979 s
 NSHARDS = {"quick": 32, "thorough": 64}
 BUDGET_S = {"quick": 200, "thorough": 1800}
 MIN_HITS = {
-    'quick': {"mode_det": 2560, "mode_k": 456, "mode_rand": 416, "mode_digest": 416, "mode_msg": 420, "reverse_k": 1048, "edge_key": 1499, "ecdh": 992, "neg_verify": 23528},
+    'quick': {"mode_det": 2560, "mode_k": 456, "mode_rand": 416, "mode_digest": 416, "mode_msg": 420, "reverse_k": 1048, "edge_key": 1499, "ecdh": 1056, "neg_verify": 23528},
     'thorough': {"mode_det": 138086, "mode_k": 23040, "mode_rand": 23040, "mode_digest": 23040, "mode_msg": 23078, "reverse_k": 57793, "edge_key": 79348, "ecdh": 53452, "neg_verify": 1266508},
 }
 EDGE = [1, 2, 3, (ec.N - 1) // 2, (ec.N + 1) // 2, ec.N - 2, ec.N - 1]
